@@ -18,8 +18,10 @@ class epoch_manager {
 public:
     static void epoch_thread() {
         for (;;) {
+            YAKUSHIMA_VERIF_HOOK(YAKUSHIMA_VERIF_SLEEP, nullptr);
             sleepMs(YAKUSHIMA_EPOCH_TIME);
             for (;;) {
+                YAKUSHIMA_VERIF_HOOK(YAKUSHIMA_VERIF_LOAD, nullptr);
                 Epoch cur_epoch = epoch_management::get_epoch();
                 bool verify{true};
                 for (auto&& elem : thread_info_table::get_thread_info_table()) {
@@ -30,14 +32,17 @@ public:
                     }
                 }
                 if (verify) break;
+                YAKUSHIMA_VERIF_HOOK(YAKUSHIMA_VERIF_SLEEP, nullptr);
                 sleepMs(1);
                 /**
                  * Suppose the user misuses and calls fin () without leave (token).
                  * When the calculation process in this loop is executed,
                  * there is no way to escape from the loop, so the following line is required.
                  */
+                YAKUSHIMA_VERIF_HOOK(YAKUSHIMA_VERIF_LOAD, &kEpochThreadEnd);
                 if (kEpochThreadEnd.load(std::memory_order_acquire)) break;
             }
+            YAKUSHIMA_VERIF_HOOK(YAKUSHIMA_VERIF_STORE, nullptr);
             epoch_management::epoch_inc();
 
             /**
@@ -59,14 +64,17 @@ public:
                 garbage_collection::set_gc_epoch(epoch_management::get_epoch() -
                                                  1);
             }
+            YAKUSHIMA_VERIF_HOOK(YAKUSHIMA_VERIF_LOAD, &kEpochThreadEnd);
             if (kEpochThreadEnd.load(std::memory_order_acquire)) { break; }
         }
     }
 
     static void gc_thread() {
         for (;;) {
+            YAKUSHIMA_VERIF_HOOK(YAKUSHIMA_VERIF_SLEEP, nullptr);
             sleepMs(YAKUSHIMA_EPOCH_TIME);
             thread_info_table::gc();
+            YAKUSHIMA_VERIF_HOOK(YAKUSHIMA_VERIF_LOAD, &kGCThreadEnd);
             if (kGCThreadEnd.load(std::memory_order_acquire)) { break; }
         }
     }
@@ -82,10 +90,12 @@ public:
     static void join_gc_thread() { kGCThread.join(); }
 
     static void set_epoch_thread_end() {
+        YAKUSHIMA_VERIF_HOOK(YAKUSHIMA_VERIF_STORE, &kEpochThreadEnd);
         kEpochThreadEnd.store(true, std::memory_order_release);
     }
 
     static void set_gc_thread_end() {
+        YAKUSHIMA_VERIF_HOOK(YAKUSHIMA_VERIF_STORE, &kGCThreadEnd);
         kGCThreadEnd.store(true, std::memory_order_release);
     }
 
